@@ -296,6 +296,8 @@ func checkC05(p *Program, r *Report) {
 	c05DivZero(p, r, m)
 	c05ToString(p, r, m)
 	c05ConverterSiblings(p, r, m)
+	wrapperKindsAgree(p, r, m, "C05.R6")
+	c05NoIdentityShortcut(p, r, m)
 }
 
 // intKindGuards counts dominating edges `isIntKind(x)` (wantTrue) / its negation that control block b.
@@ -780,5 +782,145 @@ func c05ConverterSiblings(p *Program, r *Report, m *vmModel) {
 		sort.Strings(missing)
 		r.Check(len(missing) == 0, "C05.R6", c.fn.Name()+"|handles the kinds its siblings handle", p.Pos(c.fn.Pos()), fmt.Sprintf("%d kinds, like the other converters", len(c.kinds)),
 			fmt.Sprintf("%s does not handle %v, which the other numeric converters do: a value of that kind is a number for one operator and an error (or zero) for another", c.fn.Name(), missing))
+	}
+}
+
+// wrapperKindsAgree (C05.R6, C07.R4): the value converters of vm (value -> int64 / int / float64 / bool with an error result) look
+// through the same wrappers: a kind among {pointer, interface} that one of them tests for (to unwrap) all of them test for. A
+// converter that stops looking through pointers makes the same operand truthy for one construct and "not convertible" (false)
+// for another: `ptr || f()` then runs f although the result does not depend on it.
+func wrapperKindsAgree(p *Program, r *Report, m *vmModel, rule string) {
+	type conv struct {
+		fn *ssa.Function
+		w  map[int64]bool
+	}
+	var convs []conv
+	for _, fn := range m.fns {
+		sg := fn.Signature
+		if sg.Recv() != nil || sg.Params().Len() != 1 || sg.Results().Len() != 2 || !isReflectValue(sg.Params().At(0).Type()) || !isErrorType(sg.Results().At(1).Type()) || len(fn.Blocks) == 0 {
+			continue
+		}
+		bt, ok := sg.Results().At(0).Type().(*types.Basic)
+		if !ok || bt.Info()&(types.IsNumeric|types.IsBoolean) == 0 {
+			continue
+		}
+		w := map[int64]bool{}
+		for _, b := range fn.Blocks {
+			for _, in := range b.Instrs {
+				if v, ok := in.(ssa.Value); ok {
+					if k, K := kindCmp(v); k != nil && (K == 20 || K == 22) {
+						w[K] = true
+					}
+				}
+			}
+		}
+		convs = append(convs, conv{fn, w})
+	}
+	if len(convs) < 3 {
+		r.Undecided(rule, "value converters", "vm", fmt.Sprintf("expected the family of value converters, found %d", len(convs)))
+		return
+	}
+	sort.Slice(convs, func(i, j int) bool { return convs[i].fn.Name() < convs[j].fn.Name() })
+	union := map[int64]bool{}
+	for _, c := range convs {
+		for k := range c.w {
+			union[k] = true
+		}
+	}
+	for _, c := range convs {
+		var missing []string
+		for k := range union {
+			if !c.w[k] {
+				missing = append(missing, kindName(k))
+			}
+		}
+		sort.Strings(missing)
+		r.Check(len(missing) == 0, rule, c.fn.Name()+"|looks through the wrappers its siblings look through", p.Pos(c.fn.Pos()), "pointer and interface, like the other converters",
+			fmt.Sprintf("%s does not test for %v, which the other value converters look through: an operand of that kind converts for one construct and is 'not convertible' for another (a pointer to a true value is falsy for && || ?: and if)", c.fn.Name(), missing))
+	}
+}
+
+// c05NoIdentityShortcut (R7): an arithmetic handler that leaves with one of its operands itself as the result (no operation
+// applied) does so only under an equality test of the other operand with a constant (x * 1, s * 1): an order test (count <= 1)
+// also takes the neighbouring value, for which the general path gives something else ("ab" * 0 is "", not "ab").
+func c05NoIdentityShortcut(p *Program, r *Report, m *vmModel) {
+	n := 0
+	for _, kind := range []string{"AddOperator", "MultiplyOperator"} {
+		h := m.handlers["op"][kind]
+		if h == nil {
+			continue
+		}
+		base := m.baseOf(h)
+		var isOperand func(v ssa.Value, d int) bool
+		isOperand = func(v ssa.Value, d int) bool {
+			if d > 6 {
+				return false
+			}
+			if sv := spilledValue(v); sv != nil {
+				v = sv
+			}
+			switch x := v.(type) {
+			case *ssa.UnOp:
+				return m.cellAddr(x.X, base) == "rv"
+			case *ssa.Phi:
+				for _, e := range x.Edges {
+					if !isOperand(e, d+1) {
+						return false
+					}
+				}
+				return len(x.Edges) > 0
+			case *ssa.Call:
+				if reflectMethod(x) == "Elem" {
+					return isOperand(x.Call.Args[0], d+1)
+				}
+			}
+			return false
+		}
+		k := 0
+		for _, b := range h.Blocks {
+			if _, isRet := b.Instrs[len(b.Instrs)-1].(*ssa.Return); !isRet {
+				continue
+			}
+			// the last store to the value cell in a returning block
+			var last *ssa.Store
+			errSet := false
+			for _, in := range b.Instrs {
+				if st, ok := in.(*ssa.Store); ok {
+					switch m.cellAddr(st.Addr, base) {
+					case "rv":
+						last = st
+					case "err":
+						if !isNilConst(st.Val) {
+							errSet = true
+						}
+					}
+				}
+			}
+			n++
+			if last == nil || errSet || !isOperand(last.Val, 0) {
+				continue
+			}
+			k++
+			exact := false
+			for d := b; d != nil && d.Idom() != nil; d = d.Idom() {
+				id := d.Idom()
+				if iff, ok := id.Instrs[len(id.Instrs)-1].(*ssa.If); ok {
+					if bo, ok := iff.Cond.(*ssa.BinOp); ok {
+						_, isK := bo.Y.(*ssa.Const)
+						bt, isNum := bo.X.Type().(*types.Basic) // the operand's numeric reading (not a Kind or a type test)
+						if isK && isNum && bt.Info()&types.IsNumeric != 0 && ((bo.Op == token.EQL && edgeOnly(id, 0, d)) || (bo.Op == token.NEQ && edgeOnly(id, 1, d))) {
+							exact = true
+						}
+					}
+				}
+			}
+			r.Check(exact, "C05.R7", fmt.Sprintf("%s|operand returned as the result #%d only for one exact value", kind, k), p.Pos(instrPos(last)), "under an equality test with a constant",
+				"the handler returns an operand unchanged as the result without an equality test of the other operand: a shortcut chosen by an order test also covers a neighbouring value for which the operation gives something else (\"ab\" * 0 must be \"\")")
+		}
+	}
+	if n == 0 {
+		r.Undecided("C05.R7", "arithmetic handlers", "vm", "no returning block found in the + and * handlers")
+	} else {
+		r.OK("C05.R7", "arithmetic handlers|results are computed", "vm", fmt.Sprintf("%d exits of the + - and * / %% handlers inspected", n))
 	}
 }
